@@ -186,6 +186,18 @@ pub fn generate(args: &Args) -> Vec<String> {
         ("(L (dview 0 (alt (text 97)) (alt (el 98 (A) (C)))) (setnow 0 1))", "0,0", "0=2,0=3"),
     ];
     for (f, st, ws) in fam_sn { l.push(format!("view run {f} {st} {ws}")); }
+    // regions that are EMPTY (two markers and nothing else) when the part that holds them is created, filled later, and then
+    // hidden and shown again by an enclosing Show / kept by an enclosing region: what was filled in must still be there
+    let fam_empty = [
+        ("(L (show 0 (dview 1 (alt) (alt (text 97)))))", "1,0", "1=1,0=0,0=1,1=0,0=2,0=3,1=3"),
+        ("(L (el 100 (A) (C (show 0 (dview 1 (alt) (alt (el 98 (A) (C)) (dtext 1)))) (text 122))))", "1,0", "1=1,0=0,0=1,1=2,0=0,1=3,0=1"),
+        ("(L (show 0 (show 1 (text 97))) (text 98))", "1,0", "1=1,0=0,0=1,1=0,0=2,1=1,0=3"),
+        ("(L (show 0 (show 1 (dtext 0)) (dview 1 (alt) (alt (text 99)))))", "1,0", "1=1,0=0,0=3,1=2,0=2,1=1,0=5"),
+        ("(L (el 112 (A) (C (show 0 (dview 1 (alt) (alt (show 0 (text 97))))))))", "1,0", "1=1,0=0,0=1,1=0,1=1"),
+        ("(L (show 0 (frag (dview 1 (alt) (alt (text 97) (text 98))))))", "1,0", "1=1,0=0,0=1"),
+        ("(L (show 0 (dstr 1) (dview 1 (alt) (alt (dstr 0)))))", "1,0", "1=1,0=0,0=1,1=2,0=2,0=3"),
+    ];
+    for (f, st, ws) in fam_empty { l.push(format!("view run {f} {st} {ws}")); }
     // pieces of view written with the `view!` MACRO (compiled into the harness; `(mx k g)`, each equivalent to a builder-made
     // view): what the macro emits must stay in step with the signals like everything else — alone, inside elements and
     // regions, next to builder-made parts
